@@ -11,7 +11,7 @@
 (***************************************************************************)
 EXTENDS Timeline, ClassTree, Json, IOUtils, TLCExt, SequencesExt
 
-Batch == JsonDeserialize(IOEnv.TRACE_FILE)
+Batch == TLCEval(JsonDeserialize(IOEnv.TRACE_FILE))
 
 VARIABLES tid,     \* index of the trace being validated
           l,       \* position in that trace
